@@ -453,7 +453,58 @@ def check_C11(ctx):
         ctx.case(('copy', so, tuple(tnames)))
         ctx.add_session(s, SECTIONS_L3, f'C11 {so}->{tnames}')
         s.close()
+    _copy_wide(ctx, 3 if ctx.tier == 'quick' else 30)
     _copy_module(ctx)
+
+
+def _copy_wide(ctx, n):
+    """Copies between managers with 9-12 variables in different orders (orders reached by
+    declaration or by reordering), functions with small supports at arbitrary levels."""
+    from checks_core import WIDE_NAMES, wide_function
+    rng = ctx.rng
+    for k in range(n):
+        if ctx.time_left() < 8:
+            break
+        names = rng.sample(WIDE_NAMES, rng.randint(9, 12))
+        so = names[:]
+        to = names[:]
+        rng.shuffle(so)
+        rng.shuffle(to)
+        s = Session(ctx)
+        if rng.random() < 0.5:
+            s.new(0, so)
+            s.new(1, to)
+        else:
+            s.new(0, sorted(so))
+            s.new(1, sorted(to))
+            s.op(0, 'reorder', ','.join(f'{v}={i}' for i, v in enumerate(so)))
+            s.op(1, 'reorder', ','.join(f'{v}={i}' for i, v in enumerate(to)))
+        b1 = s.mgr(1)
+        for _ in range(40):
+            sp, sub, t, r = wide_function(ctx, s, so)
+            if abs(r) != 1:
+                s.incref(0, r)
+            sign = rng.choice([1, -1])
+            ans = s.op(0, 'copy', sign * r, 1)
+            got = s.val(ans)
+            want = sp.neg(t) if sign < 0 else t
+            ctx.evaluations += 1
+            if got is None or TT(b1, sub).of(got) != want:
+                ctx.violation('copied reference denotes another function (wide managers)', dict(
+                    source_order=so, target_order=to, sub=sub, tt=t, sign=sign, got=ans,
+                    tags=dict(call='copy-wide')))
+                break
+            if rng.random() < 0.5 and abs(got) != 1:
+                s.incref(1, got)
+        bad = check_invariants(b1, s.ledger.get(1, {}), probe=True)
+        if bad:
+            ctx.violation('target not canonical after copies (wide managers)', dict(
+                problems=bad[:4], tags=dict(call='copy-wide-target')))
+        s.state(0)
+        s.state(1)
+        ctx.case(('copy-wide', tuple(so), tuple(to)))
+        ctx.add_session(s, SECTIONS_L3, 'C11 wide')
+        s.close()
 
 
 def _copy_module(ctx):
